@@ -1,0 +1,51 @@
+//! Verification hooks. Compiled only with `--cfg geo_booleanop_verif`; never part of a normal build.
+//!
+//! * a per-thread counter of the events popped by the sweep loop, with a budget that turns a
+//!   runaway sweep into a panic with a distinctive message,
+//! * a per-thread counter of executions of the corner-case-1 bump in `divide_segment`,
+//! * re-exports of otherwise private functions for function-level comparison with the model.
+
+use std::cell::Cell;
+
+pub use super::connect_edges::{connect_edges, verif_order_events as order_events, Contour};
+pub use super::divide_segment::divide_segment;
+pub use super::helper::NextAfter;
+pub use super::segment_intersection::{intersection, LineIntersection};
+pub use super::signed_area::signed_area;
+
+thread_local! {
+    static EVENTS: Cell<u64> = Cell::new(0);
+    static BUDGET: Cell<u64> = Cell::new(u64::MAX);
+    static BUMPS: Cell<u64> = Cell::new(0);
+}
+
+pub const BUDGET_MESSAGE: &str = "verif: event budget exceeded";
+
+/// Resets both counters and sets the event budget for the calling thread.
+pub fn reset(budget: u64) {
+    EVENTS.with(|c| c.set(0));
+    BUMPS.with(|c| c.set(0));
+    BUDGET.with(|c| c.set(budget));
+}
+
+pub fn events() -> u64 {
+    EVENTS.with(|c| c.get())
+}
+
+pub fn bumps() -> u64 {
+    BUMPS.with(|c| c.get())
+}
+
+pub(super) fn on_event_popped() {
+    let n = EVENTS.with(|c| {
+        c.set(c.get() + 1);
+        c.get()
+    });
+    if n > BUDGET.with(|c| c.get()) {
+        panic!("{}", BUDGET_MESSAGE);
+    }
+}
+
+pub(super) fn on_bump() {
+    BUMPS.with(|c| c.set(c.get() + 1));
+}
